@@ -75,7 +75,7 @@ def build(rnd, tier, flags):
                               lit_pad=r.pick([0, 50]), names=gen.ALL_NAMES, excl=set(flags))
         lay = layout.fixed_layout(flat, rnd, fo)
     else:
-        lo = layout.FreeOpts(trail_blanks=r.pick([0, 0, 25]), cont=r.pick([5, 15, 25]), lead_amp=r.pick([0, 50, 100]), lit_break=r.pick([0, 40]),
+        lo = layout.FreeOpts(trail_blanks=r.pick([0, 0, 25]), big_indent=r.pick([0, 0, 10]), cont=r.pick([5, 15, 25]), lead_amp=r.pick([0, 50, 100]), lit_break=r.pick([0, 40]),
                              comments=r.pick([0, 20]), trailing=r.pick([0, 15]), blank_lines=r.pick([0, 10]),
                              cont_comments=r.pick([0, 40]), semis=r.pick([0, 25]), indent=True, blanks=r.chance(30),
                              names=gen.ALL_NAMES, excl=set(flags))
